@@ -29,6 +29,8 @@ F23 = "C20-comment-dropped"
 F24 = "C20-whitespace-inside-string-literal-rewritten"
 F25 = "C20-blanks-inside-comment-rewritten-per-pass"
 
+SCAN_MAX = 1200
+
 STOP_KINDS = {"(", "AT_DOC", "AT_HANDLER", ";", "}"}
 
 
@@ -440,7 +442,7 @@ def mutant_shape(m):
 class C20(Property):
     id = "C20"
     title = "goctl API formatter preserves meaning and is idempotent"
-    quick_cases = 260
+    quick_cases = 200
     thorough_cases = 5000
     level = "proof"
     design_ref = "DESIGN.md §6/C20"
@@ -485,8 +487,10 @@ class C20(Property):
 
     def __init__(self):
         self.bin = None
-        self.fixed = {}
         self._valid = {}
+        self._kcache = {}       # source of a failing program -> known-finding id or None
+        self._last = []         # (case, obs) of the last executor run
+        self._monitor = {}      # source -> obs of the valid programs of the main run (comment monitor)
 
     # ---- build ------------------------------------------------------------------
     def prepare(self, ctx):
@@ -533,7 +537,7 @@ class C20(Property):
                     "svc_comment": on[F16],
                     "multi_indent": on[F17],
                     "empty_after_import": on[F21],
-                    "maxstmts": rng.choice([2, 4, 7, 9])}
+                    "maxstmts": rng.choice([2, 2, 4, 4, 7, 9])}
             # "every legal position": line comments / comments followed by a line break also inside
             # constructs the formatter prints on one line (finding family F22)
             inl = 2 if (self._on(F22) and rng.random() < 0.25) else 1
@@ -549,7 +553,7 @@ class C20(Property):
             cases.append({"src": src, "muts": muts})
         return cases
 
-    def execute(self, cases, ctx):
+    def execute(self, cases, ctx, remember=True):
         rc, out, res = c20lib.run(self.bin, cases)
         if rc != 0 or len(res) != len(cases):
             raise ExecError("c20 executor rc=%s: %s" % (rc, out[-2000:]))
@@ -557,6 +561,11 @@ class C20(Property):
             if r.get("err"):
                 raise ExecError("c20 executor: case %s: %s" % (r.get("id"), r["err"]))
             r.pop("id", None)
+        if remember:
+            self._last = list(zip(cases, res))
+            if len(self._monitor) < 6000 and not any(c.get("expect_valid") for c in cases):
+                for c, r in zip(cases, res):
+                    self._monitor.setdefault(c["src"], r)
         return res
 
     def coq_preamble(self):
@@ -590,13 +599,15 @@ class C20(Property):
                 return "(Some %s)" % q(text)
             except Unrenderable:
                 return "None"
-        cm_ok = all(clean(c[2]) == c[2] for c in obs["cmts"] + obs["fcmts"])
+        # the character-level tie costs Coq front-end time (long string literals): every source up
+        # to SCAN_MAX characters, every formatted text up to SCAN_MAX/2
+        cm_ok = all(clean(c[2]) == c[2] for c in obs["cmts"] + obs["fcmts"]) and "unrenderable_t" not in obs
         return "mkCase %s %s %s %s %s %s %s %s %s %s %s %s %s %s %s" % (
-            src_term(case["src"]) if cm_ok and "unrenderable_t" not in obs else "None",
-            src_term(obs["fmt1"]) if cm_ok and "unrenderable_t" not in obs else "None",
+            src_term(case["src"]) if cm_ok and len(case["src"]) <= SCAN_MAX else "None",
+            src_term(obs["fmt1"]) if cm_ok and len(obs["fmt1"]) <= SCAN_MAX // 2 else "None",
             b(not obs.get("serr") and "unrenderable_t" not in obs), toks, r_cmts(obs["cmts"]), ast, outc(obs["pout"]),
             outc(obs["fout"]), ftoks, r_cmts(obs["fcmts"]), fast, b(obs["idem"]), b(obs.get("file") == "same"),
-            b(self._on(F23)), lst([outc(m) for m in obs["muts"]]))
+            b(os.environ.get("C20_STRICT") == "1"), lst([outc(m) for m in obs["muts"]]))
 
     # ---- classification ---------------------------------------------------------
     def known(self, case, obs):
@@ -605,19 +616,48 @@ class C20(Property):
         Nothing here looks at how the case was generated, and nothing is learnt from the tree under
         test: a comment can only be blamed when its grammar position and form (c20gaps.comment_keys,
         computed from the Go scanner's token stream) is a key of the COMMITTED table
-        tools/props/c20_known_gaps.json with exactly the failure mode observed; the program with
-        exactly the blamed comments removed/repaired must then satisfy the whole property
-        (re-executed).  A failure the Python side cannot classify (token/layout mismatch against the
-        model printer, format.File, a crash of a mutant) is never suppressed."""
+        tools/props/c20_known_gaps.json with exactly the failure modes observed; the program with
+        exactly the blamed comments removed/repaired must then satisfy the WHOLE check -- it is
+        re-executed on the implementation and re-judged by Coq (agrees and prop_ok), so a second,
+        unrelated failure in the same program (layout, tokens, File ...) is not absorbed.  A failure
+        the Python side cannot classify is never suppressed."""
+        key = case["src"]
+        if key not in self._kcache:
+            todo = [(case, obs)]
+            seen = {key}
+            for c, o in self._last:
+                if c["src"] not in seen and c["src"] not in self._kcache and o.get("pout") == "ok" and failure_modes(o):
+                    seen.add(c["src"])
+                    todo.append((c, o))
+            self._fill_kcache(todo)
+        return self._kcache.get(key)
+
+    def _fill_kcache(self, todo):
         kids = vlib.known_ids(self.id)
-        if any(o not in ("ok", "err", "skipped-empty") for o in obs["muts"]):
-            return None
-        if obs.get("file") != "same" or obs["pout"] != "ok" or obs.get("serr") or obs["fout"] != "ok":
-            return None
-        fids = self._explain_main(case, obs, kids)
-        if not fids or not all(i in kids for i in fids):
-            return None
-        return sorted(fids)[0]
+        plans = []          # (source of the failing program, combo, repaired source)
+        for case, obs in todo:
+            self._kcache[case["src"]] = None
+            if any(o not in ("ok", "err", "skipped-empty") for o in obs["muts"]):
+                continue
+            if obs.get("file") != "same" or obs["pout"] != "ok" or obs.get("serr") or obs["fout"] != "ok":
+                continue
+            for combo, src2 in self._variants(case, obs, kids):
+                plans.append((case["src"], obs["ast"], combo, src2))
+        if not plans:
+            return
+        cases2 = [{"src": p[3], "muts": []} for p in plans]
+        try:
+            res = self.execute(cases2, None, remember=False)
+            terms = [self.coq_case(c, o) for c, o in zip(cases2, res)]
+            verdicts = vlib.coq_eval_cases(self.id, self.check_module, terms, preamble=self.coq_preamble())
+        except Exception:
+            return
+        for (src, ast, combo, src2), o2, (ag, ok) in zip(plans, res, verdicts):
+            if self._kcache.get(src) is not None:
+                continue
+            if ag and ok and o2["pout"] == "ok" and (F24 in combo or o2["ast"] == ast):
+                if all(i in kids for i in combo):
+                    self._kcache[src] = sorted(combo)[0]
 
     @staticmethod
     def _main_ok(obs):
@@ -626,59 +666,52 @@ class C20(Property):
         return obs["fout"] == "ok" and obs["idem"] and c20_norm(obs["ast"]) == obs["fast"] \
             and obs.get("file", "same") == "same"
 
-    def _run1(self, src):
-        rc, out, res = c20lib.run(self.bin, [{"src": src}])
-        return res[0] if rc == 0 and len(res) == 1 else None
-
-    def _explain_main(self, case, obs, kids):
-        """Which registered known finding(s) explain a failing valid program?
+    def _variants(self, case, obs, kids):
+        """Candidate explanations of a failing valid program: (ids, repaired source).
           F17  block comment with a continuation line starting with blanks/tabs: only idempotence
                may fail, the two passes differ only in leading white space  -> white space removed
-          F22  comment in a gap of the committed table with mode idem/noparse/meaning; the modes
-               observed on the program must all be recorded for the blamed gaps -> comment removed
-          F23  comment missing from the formatted text: its gap must be in the table with mode
-               "lost"                                                         -> comment removed
           F25  comment containing a tab or ending a line with 2+ blanks: only idempotence may fail,
                the two passes differ only in the width of runs of blanks
                                                    -> tabs replaced by blanks, trailing blanks removed
+          F22  comment carrying a line break in a gap that the committed table lists as printed on
+               one line (only idempotence may fail), or in a gap recorded with mode noparse/meaning
+               (then that mode may be observed too)                           -> comment removed
           F24  a STRING/RAW_STRING token containing a tab, or blanks next to a line break: its text
-               is rewritten by the layout pass (tokens differ only in such tokens, only in white
-               space)                                                   -> white space normalised
-        Returns the sorted list of ids needed, or None."""
+               is rewritten by the layout pass                           -> white space normalised
+        (lost comments, F23, are judged by the monitor in extra(): they never excuse anything here)"""
         cmts = obs["cmts"]
         ms = failure_modes(obs)
-        lost = lost_comments(obs)
-        strict_lost = lost if self._on(F23) else []
+        if not ms or "ferr" in ms:
+            return []
         keys = c20gaps.comment_keys(obs["toks"], cmts)
         fam = {}
-        need = set(ms)
-        if F17 in kids and ms <= {"idem"}:
+        if F17 in kids and ms == {"idem"}:
             ix = multiline_indented(cmts)
-            if ix and (not ms or only_leading_ws_differs(obs["fmt1"], obs["fmt2"])):
+            if ix:
                 fam[F17] = {i: CONT_WS.sub("\n", cmts[i][2]) for i in ix}
         if F25 in kids and ms == {"idem"}:
             ix = [i for i, c in enumerate(cmts) if CMT_WS.search(c[2])]
-            if ix and only_blank_runs_differ(obs["fmt1"], obs["fmt2"]):
+            if ix:
                 fam[F25] = {i: re.sub(r"[ \t]+(\r?\n|$)", r"\1", re.sub(r"[ \t]*\t[ \t]*", " ", cmts[i][2])) for i in ix}
-        if F22 in kids and ms:
-            ix = [i for i, k in enumerate(keys) if c20gaps.modes(k) & {"idem", "noparse", "meaning"}]
+        if F22 in kids:
+            # the registered family: a comment that carries a line break between two tokens the
+            # pinned formatter prints on one line (committed list of such gaps) -- idempotence;
+            # "does not parse" / "meaning changed" only for the exact keys recorded with that mode
+            ix = [i for i, k in enumerate(keys)
+                  if (c20gaps.carries_break(k) and c20gaps.one_line(k)) or c20gaps.modes(k) & {"idem", "noparse", "meaning"}]
             if ix:
                 fam[F22] = {i: " " for i in ix}
-        if F23 in kids and strict_lost:
-            if not all("lost" in c20gaps.modes(keys[i]) for i in strict_lost):
-                return None
-            fam[F23] = {i: " " for i in strict_lost}
-        elif strict_lost:
-            return None
+        sed = None
         if F24 in kids and "meaning" in ms:
-            ed = string_ws_edits(obs["toks"])
-            if ed:
-                fam[F24] = ed
+            sed = string_ws_edits(obs["toks"])
+            if sed:
+                fam[F24] = sed
         if not fam:
-            return None
+            return []
         names = sorted(fam)
         combos = [[f] for f in names] + [[a, b2] for i, a in enumerate(names) for b2 in names[i + 1:]] + \
                  ([names] if len(names) > 2 else [])
+        out = []
         for combo in combos:
             # the failure modes observed must be recorded for what is blamed
             allowed = set()
@@ -687,23 +720,17 @@ class C20(Property):
             if F22 in combo:
                 for i in fam[F22]:
                     allowed |= c20gaps.modes(keys[i]) & {"idem", "noparse", "meaning"}
+                    if c20gaps.carries_break(keys[i]) and c20gaps.one_line(keys[i]):
+                        allowed.add("idem")
             if F24 in combo:
                 allowed |= {"meaning", "idem"}
             if not ms <= allowed:
                 continue
-            if strict_lost and F23 not in combo and not all(i in fam.get(F22, {}) for i in strict_lost if F22 in combo):
+            # blamed on white space inside comments alone: the two passes may differ in nothing else
+            if combo == [F17] and not only_leading_ws_differs(obs["fmt1"], obs["fmt2"]):
                 continue
-            src2 = case["src"]
-            if F24 in combo:
-                src2 = apply_string_edits(src2, obs["toks"], fam[F24])
-                if src2 is None:
-                    continue
-                o1 = self._run1(src2)
-                if o1 is None or o1["pout"] != "ok" or [t[0] for t in o1["toks"]] != [t[0] for t in obs["toks"]]:
-                    continue
-                cm = o1["cmts"]
-            else:
-                cm = cmts
+            if set(combo) <= {F17, F25} and not only_blank_runs_differ(obs["fmt1"], obs["fmt2"]):
+                continue
             edits = {}
             for f in combo:
                 if f == F24:
@@ -711,17 +738,37 @@ class C20(Property):
                 for i, t in fam[f].items():
                     if t == " " or i not in edits:      # removing a comment wins over repairing it
                         edits[i] = t
-            if edits:
-                src2 = edit_comments(src2, cm, edits)
-            o2 = self._run1(src2) if src2 is not None else None
-            if o2 is None or not self._main_ok(o2):
+            src2 = edit_comments(case["src"], cmts, edits) if edits else case["src"]
+            if src2 is not None and F24 in combo:
+                src2 = apply_string_edits(src2, obs["toks"], fam[F24])
+            if src2 is not None and src2 != case["src"]:
+                out.append((combo, src2))
+        return out
+
+    # ---- direct monitor: comments must not disappear -------------------------------
+    def extra(self, ctx):
+        """`only whitespace and comment placement may differ`: every comment of the source must be
+        in the formatted text.  Judged on every valid program of the run once the finding
+        C20-comment-dropped is registered: a lost comment whose gap is recorded with mode "lost" in
+        the committed table is that known finding, any other lost comment is a failing input."""
+        if not self._on(F23):
+            return []
+        res = []
+        for src, obs in self._monitor.items():
+            if obs["pout"] != "ok" or obs["fout"] != "ok" or obs.get("serr"):
                 continue
-            if F24 not in combo and o2["ast"] != obs["ast"]:
+            lost = lost_comments(obs)
+            if not lost:
                 continue
-            if self._on(F23) and lost_comments(o2):
-                continue
-            return combo
-        return None
+            keys = c20gaps.comment_keys(obs["toks"], obs["cmts"])
+            bad = [i for i in lost if "lost" not in c20gaps.modes(keys[i])]
+            if bad:
+                res.append({"what": "format.Source dropped the comment %r (gap %s), which the pinned tree keeps"
+                                    % (obs["cmts"][bad[0]][2], keys[bad[0]]),
+                            "replay": {"src": src, "formatted": obs["fmt1"], "lost": [obs["cmts"][i][2] for i in bad]}})
+            else:
+                res.append({"what": "comments dropped", "known": F23, "replay": {"src": src}})
+        return res[:400]
 
     # ---- evidence ---------------------------------------------------------------
     def nontrivial(self, case, obs):
